@@ -34,6 +34,7 @@ props! {
     "C11" => c11,
     "C12" => c12,
     "C13" => c13,
+    "C14" => c14,
 }
 
 pub fn iso_space(_prop: &str, _mode: &str, _tier: Tier) -> Option<Box<dyn IsoSpace>> {
